@@ -61,7 +61,7 @@ def prepare_scratch(repo, scratch):
         with open(os.path.join(hdir, ex["out"]), "w") as f:
             f.write("// extracted mechanically and verbatim from %s lines %d-%d (starting at `%s`)\n"
                     % (ex["file"], a, b, ex["marker"].strip()))
-            f.write(ex["header"] + "\n" + "\n".join(body) + "\n}\n")
+            f.write(ex["header"] + "\n" + "\n".join(body) + "\n" + ex.get("footer", "") + "}\n")
     injs = props.injections()
     added = inject.apply_injections(src, injs, hdir)
     files = sorted({i["file"] for i in injs})
